@@ -26,6 +26,7 @@ type Obj interface {
 	State() string        // printable packed state, for hashing / messages
 	Nomenclature() string // v4 only, "" otherwise
 	Same(Obj) bool        // pointer identity
+	Assign(Obj)           // *o = *p: the object overwritten as a whole, without any Set
 	Fn(i int) float64
 }
 
@@ -114,6 +115,10 @@ func (o O20) Clone() Obj           { c := *o.P; return O20{&c} }
 func (o O30) Clone() Obj           { c := *o.P; return O30{&c} }
 func (o O31) Clone() Obj           { c := *o.P; return O31{&c} }
 func (o O40) Clone() Obj           { c := *o.P; return O40{&c} }
+func (o O20) Assign(p Obj)         { *o.P = *p.(O20).P }
+func (o O30) Assign(p Obj)         { *o.P = *p.(O30).P }
+func (o O31) Assign(p Obj)         { *o.P = *p.(O31).P }
+func (o O40) Assign(p Obj)         { *o.P = *p.(O40).P }
 func (o O20) Eq(p Obj) bool        { return *o.P == *p.(O20).P }
 func (o O30) Eq(p Obj) bool        { return *o.P == *p.(O30).P }
 func (o O31) Eq(p Obj) bool        { return *o.P == *p.(O31).P }
